@@ -239,6 +239,8 @@ theorem specRedirect_of_params (inflate : Bytes → Option Bytes) (typ msg loc r
     (hv : (if typ = sSAMLart then v == msg else specRedirectDelivery inflate v msg) = true) :
     specRedirect inflate typ msg loc rs url = true := by
   unfold specRedirect
+  rw [Bool.or_eq_true]
+  right
   simp only [hps, List.take_left', List.drop_left', beq_self_eq_true, Bool.true_and]
   unfold withRelay
   by_cases he : rs.isEmpty = true
